@@ -7,7 +7,9 @@ package main
 //                                           T:<code>:<msghex>  |  R<n>;<id>,<method>,<params>,<err>;...
 //                                           err = - | <code>:<msghex>:<datahex>
 //   E <who> <batch> <msgs>               -> bytes emitted by the real library for the abstract messages
-//        who = C client Call/Notify/Batch, S server responses, N server push (Notify/Callback)
+//        who = C client Call/Notify/Batch, S server responses, N server push (Notify/Callback),
+//              R Response.MarshalJSON of the *Response a real client got for a real server's reply,
+//              X json.Marshal(*jrpc2.Error)
 //        msgs = m;m;...   m = <id>,<method>,<mode><params>,<mode><result>,<err>   (hex fields)
 //        mode: r = json.RawMessage as is, g = decoded Go value (UseNumber), v<k>_ = corpus value k
 //        observation = <hex bytes>:<json.Valid><utf8.Valid><no byte below 0x20>
@@ -255,6 +257,44 @@ func runE(who string, batch bool, msgs []absMsg) (string, bool) {
 			return "send-error", false
 		}
 		return recvTimeout(cliEnd)
+	case "R":
+		m := msgs[0]
+		h := func(ctx context.Context, req *jrpc2.Request) (any, error) {
+			if m.err != nil {
+				e := &jrpc2.Error{Code: jrpc2.Code(m.err.code), Message: m.err.msg}
+				if m.err.data != "" {
+					e.Data = json.RawMessage(m.err.data)
+				}
+				return nil, e
+			}
+			return goValue(m.rmode, m.result), nil
+		}
+		cliEnd, srvEnd := channel.Direct()
+		srv := jrpc2.NewServer(anyAssigner{h}, &jrpc2.ServerOptions{DisableBuiltin: true}).Start(srvEnd)
+		cli := jrpc2.NewClient(cliEnd, nil)
+		defer func() { cli.Close(); srv.Stop(); srv.Wait() }()
+		cctx, cancel := context.WithTimeout(ctx, 10*time.Second)
+		defer cancel()
+		rsps, err := cli.Batch(cctx, []jrpc2.Spec{{Method: "m"}})
+		if err != nil || len(rsps) != 1 {
+			return "call-error:" + fmt.Sprint(err), false
+		}
+		b, merr := json.Marshal(rsps[0])
+		if merr != nil {
+			return "marshal-error:" + merr.Error(), false
+		}
+		return string(b), true
+	case "X":
+		m := msgs[0]
+		e := &jrpc2.Error{Code: jrpc2.Code(m.err.code), Message: m.err.msg}
+		if m.err.data != "" {
+			e.Data = json.RawMessage(m.err.data)
+		}
+		b, merr := json.Marshal(e)
+		if merr != nil {
+			return "marshal-error", false
+		}
+		return string(b), true
 	case "N":
 		cliEnd, srvEnd := channel.Direct()
 		srv := jrpc2.NewServer(anyAssigner{nil}, &jrpc2.ServerOptions{AllowPush: true, DisableBuiltin: true}).Start(srvEnd)
@@ -523,11 +563,13 @@ func wireMain(cfg *config, which string) {
 		}
 		b, ok := runE(who, batch, msgs)
 		if !ok {
-			w.line("E", who, boolf(batch), strings.Join(ss, ";"), "FAIL-"+hexf(b))
+			w.line("E", who, boolf(batch), strings.Join(ss, ";"), "FAIL:"+hexf(b))
 			return
 		}
 		w.line("E", who, boolf(batch), strings.Join(ss, ";"), hexf(b)+":"+wireFlags(b))
-		emitP(b)
+		if who != "X" {
+			emitP(b)
+		}
 	}
 	emitB := func(body, outcome string) { w.line("B", hexf(body), outcome, runB(body, outcome)) }
 
@@ -669,8 +711,14 @@ func wireMain(cfg *config, which string) {
 	emitE("C", false, []absMsg{{id: "1", method: "a\"b\\c\n<>&\u2028\x7f\x00", pmode: "r", params: "\n[\n1,\n2\n]\n"}})
 	emitE("N", false, []absMsg{{method: "note", pmode: "r", params: "5"}})
 	emitE("N", false, []absMsg{{id: "1", method: "call", pmode: "r", params: `"str"`}})
+	emitE("X", false, []absMsg{{id: "1", err: &absErr{code: 0}}})
+	emitE("X", false, []absMsg{{id: "1", err: &absErr{code: -32700, msg: "a\"<\n\xff", data: " [ 1 , \"<\" ] "}}})
+	emitE("X", false, []absMsg{{id: "1", err: &absErr{code: 5, msg: "x", data: "{bad"}}})
+	emitE("R", false, []absMsg{{id: "1", rmode: "r", result: "null"}})
+	emitE("R", false, []absMsg{{id: "1", err: &absErr{code: 0}}})
+	emitE("R", false, []absMsg{{id: "1", err: &absErr{code: -1, msg: "\xffm<", data: "\n{ }\n"}}})
 	for i := 0; i < nE; i++ {
-		switch r.intn(10) {
+		switch r.intn(11) {
 		case 0, 1, 2: // client single
 			m := absMsg{method: genMethodName(r), pmode: "r"}
 			if r.chance(2, 3) {
@@ -719,6 +767,18 @@ func wireMain(cfg *config, which string) {
 				msgs = append(msgs, m)
 			}
 			emitE("S", batch, msgs)
+		case 8: // Response.MarshalJSON on the client side, Error marshalling
+			m := absMsg{id: "1", rmode: "r"}
+			if r.chance(1, 2) {
+				m.err = genAbsErr(r)
+				if m.err.data != "" && !json.Valid([]byte(m.err.data)) {
+					m.err.data = ""
+				}
+				emitE("X", false, []absMsg{m})
+			} else {
+				m.rmode, m.result = genRawValue(r)
+			}
+			emitE("R", false, []absMsg{m})
 		default: // server push
 			m := absMsg{method: genMethodName(r), pmode: "r"}
 			if r.chance(1, 2) {
